@@ -390,7 +390,9 @@ def run_command(case):
             if viol:
                 return {'violations': viol, 'digest': W.digest(), 'probes': probes, 'sim_s': W.sim_s, 'steps': W.sim_steps}
         # (the whole restore has to fit into the simulated-time cap of one process)
-        L = max(int(L * case.get('L_restore_factor', 1)), 1, sum(len(v) for v in want.values()) // 1500 + 1)
+        total_bytes = sum(len(v) for v in want.values())
+        # ... and into its step cap: the command moves the data in blocks of L // (16 N) bytes, at most ~20 000 of them here
+        L = max(int(L * case.get('L_restore_factor', 1)), 1, total_bytes // 1500 + 1, 16 * case['N'] * (total_bytes // 20_000 + 1))
         d = max(L // (case['N'] * 16), 1)
         A = 0.5 * L + (case['N'] + 1) * d
         t0 = W.env.now
